@@ -129,6 +129,9 @@ def run_property(pid, modname, tier, seed=0, procs=None):
     t_start = time.time()
     mod = importlib.import_module(modname)
     jobs = mod.jobs(tier)
+    only = os.environ.get("SYMX_ONLY")
+    if only:
+        jobs = [j for j in jobs if only in j.name]
     meta = mod.META
     procs = procs or min(16, os.cpu_count() or 4)
     ctx = mp.get_context("fork")
